@@ -24,7 +24,9 @@ RULE = ("scenes: 1-8 (thorough <=20) separated convex obstacles (gap >= 1) in gr
         "rectangle, a 1-bend and a 2-bend route whose length gap d satisfies floor(p) < d < p for a fractional penalty p). "
         "Edit histories (router kept alive, one deleteShape / moveShape per processTransaction, certificate rebuilt from the "
         "current scene and checked after EVERY transaction; each transaction is its own case): edit-history (2-3 blockers across "
-        "the source-target line + bystanders, blockers removed/moved in random order) and edit-history-random (grid scenes). "
+        "the source-target line + bystanders, blockers removed/moved in random order, then rectangles added back across the "
+        "route), edit-history-random (grid scenes) and edit-history-add (a small rectangle is ADDED, or an existing one MOVED, "
+        "across exactly one chosen segment - first / middle / last / the only one - of the current route, one per transaction). "
         "Non-trivial: some route has >= 3 points.")
 TRUSTED_BASE = ["Lean 4.33 kernel", "axioms: propext, Classical.choice, Quot.sound", "Lean compiler for the driver",
                 "harness + generator + hex-float import", "driver glue (parsing, graph assembly from specGraph/edgesFrom)"]
